@@ -487,6 +487,9 @@ func Any2I(v interface{}) int {
 }
 `
 
+// (entries beyond the Core counts were added in round 5)
+const f4DstCore, f4SrcCore = 8, 28
+
 var f4Dst = []string{"X", "Y", "N.A", "M.A", "Q.A", "N", "Zz", "x", "O", "M"}
 var f4Src = []string{"A", "N.A", "G()", "GN().A", "P.A", "E", "Emb.E", "GE()", "B", "g", "Zz", "$1.A", "$2", "$3.A", "$1.G()", "$0", "$9", "$2.A", "V()", "GP().A", "a", "N", "$1.N", "GEN().A", "P", "GN().PA()", "N.PA()", "Lab()",
 	"$3.G()", "$3.PG()", "$3.GE()", "$3.GAA().A", "$3.GAA().PG()", "$3.Two()", "$3.Arg()", "$3.G", "$3.A()", "$4.X", "$4.y", "$4.Y()", "$3.GE().A"}
@@ -556,11 +559,14 @@ func familyF4(thorough bool) []*scen.Cell {
 		}
 		add(f4Cell("f4map_"+scen.DigitsID(d), "map", notes, d[2], d[3], d[4], d[5], nil))
 	}
+	// thorough: the complete product over the alphabets as they stood after round 4 (f4DstCore x f4SrcCore); the entries
+	// added in round 5 join through the deviation-bounded enumeration (both tiers), which keeps the thorough tier's cost
+	// where it was instead of tripling it
 	if thorough {
-		scen.Odometer(mapR, func(d []int) { mk(d) })
-	} else {
-		scen.Deviations(mapR, mapBase, maxDev, func(d []int, _ int) { mk(d) })
+		coreR := append([]int{f4DstCore, f4SrcCore}, mapR[2:]...)
+		scen.Odometer(coreR, func(d []int) { mk(d) })
 	}
+	scen.Deviations(mapR, mapBase, maxDev, func(d []int, _ int) { mk(d) })
 	// ---- :conv dims: dst, src, func, args, err, style, case, explicit-dst-form
 	convR := []int{len(f4Dst), len(f4Src), len(f4Conv), 2, 2, 2, 2}
 	convBase := []int{0, 0, 0, 1, 0, 0, 0}
@@ -574,10 +580,10 @@ func familyF4(thorough bool) []*scen.Cell {
 		add(f4Cell("f4conv_"+scen.DigitsID(d), "conv", notes, d[3], d[4], d[5], d[6], extra))
 	}
 	if thorough {
-		scen.Odometer(convR, func(d []int) { mkc(d) })
-	} else {
-		scen.Deviations(convR, convBase, maxDev, func(d []int, _ int) { mkc(d) })
+		coreR := append([]int{f4DstCore, f4SrcCore}, convR[2:]...)
+		scen.Odometer(coreR, func(d []int) { mkc(d) })
 	}
+	scen.Deviations(convR, convBase, maxDev, func(d []int, _ int) { mkc(d) })
 	// :conv with the destination omitted (same path on both sides) and converters generated in the same run
 	for i, n := range [][]string{
 		{":conv I2I A"}, {":conv N2N N"}, {":conv I2S B"}, {":conv I2I N.A"}, {":conv I2I M.A"}, {":conv I2IE A X"},
